@@ -45,7 +45,15 @@ def show(t, depth=6):
         return t.a[0]
     if depth <= 0:
         return '...'
+    if t.op == 'sum':
+        return '(+ %s %s)' % (t.a[0], ' '.join('%s*%s' % (c, show(x, depth - 1)) for c, x in t.a[1]))
     return '(' + t.op + ' ' + ' '.join(show(x, depth - 1) if isinstance(x, T) else str(x) for x in t.a) + ')'
+
+
+def children(t):
+    if t.op == 'sum':
+        return [x for c, x in t.a[1]]
+    return [x for x in t.a if isinstance(x, T)]
 
 
 def same(x, y):
@@ -54,6 +62,10 @@ def same(x, y):
         return True
     if x.op != y.op or x.s != y.s or len(x.a) != len(y.a):
         return False
+    if x.op == 'sum':
+        if x.a[0] != y.a[0] or len(x.a[1]) != len(y.a[1]):
+            return False
+        return all(c1 == c2 and same(a1, a2) for (c1, a1), (c2, a2) in zip(x.a[1], y.a[1]))
     for p, q in zip(x.a, y.a):
         if isinstance(p, T):
             if not isinstance(q, T) or not same(p, q):
@@ -123,66 +135,94 @@ def _ba(a, b):
     return None if a is None or b is None else a + b
 
 
-# ------------------------------------------------------------------ arithmetic
+# Linear arithmetic is kept in canonical form: a term is a constant, an atom (variable, idiv, imod,
+# toint, ite, non-linear product, quotient) or a 'sum' node  k0 + k1*a1 + ... + kn*an  with atoms
+# sorted by creation id and non-zero coefficients.  Equal linear expressions are therefore the same
+# object, common summands cancel in comparisons, and (256*h + l) // 256 folds to h.
+
+def linparts(t):
+    """(constant, ((coeff, atom), ...)) of an INT/REAL term"""
+    if t.op == 'const':
+        return t.a[0], ()
+    if t.op == 'sum':
+        return t.a[0], t.a[1]
+    return 0, ((1, t),)
+
+
+def _bits_of_part(c, a):
+    if c > 0 and (c & (c - 1)) == 0 if isinstance(c, int) else False:
+        b = pbits(a)
+        return None if b is None else b * c
+    return None
+
+
+def mk_sum(k, parts, s):
+    """canonical term for k + sum(c*a); parts: iterable of (coeff, atom)"""
+    acc = {}
+    atoms = {}
+    real = (s == REAL)
+    for c, a in parts:
+        if c == 0:
+            continue
+        if real and not isinstance(c, Fraction):
+            c = Fraction(c)
+        i = a.id
+        if i in acc:
+            acc[i] += c
+        else:
+            acc[i] = c
+            atoms[i] = a
+    items = tuple((acc[i], atoms[i]) for i in sorted(acc) if acc[i] != 0)
+    if s == REAL and not isinstance(k, Fraction):
+        k = Fraction(k)
+    if not items:
+        return const(k, s)
+    if len(items) == 1 and k == 0 and items[0][0] == 1:
+        return items[0][1]
+    lo = hi = k
+    for c, a in items:
+        l, h = (a.lo, a.hi) if c > 0 else (a.hi, a.lo)
+        lo = None if lo is None or l is None else lo + c * l
+        hi = None if hi is None or h is None else hi + c * h
+    bits = None
+    if s == INT and k >= 0:
+        bits = k
+        for c, a in items:
+            b = _bits_of_part(c, a)
+            if b is None or (bits & b):
+                bits = None
+                break
+            bits |= b
+    return _mk('sum', (k, items), s, lo, hi, bits)
+
 
 def add(x, y):
-    if x.op == 'const':
-        x, y = y, x
-    if y.op == 'const':
-        c = y.a[0]
-        if x.op == 'const':
-            return const(x.a[0] + c, x.s)
-        if c == 0:
-            return x
-        if x.op == 'add' and x.a[1].op == 'const':
-            return add(x.a[0], const(x.a[1].a[0] + c, x.s))
-    bits = None
-    if x.s == INT:
-        bx, by = pbits(x), pbits(y)
-        if bx is not None and by is not None and (bx & by) == 0:
-            bits = bx | by
-    return _mk('add', (x, y), x.s, _ba(x.lo, y.lo), _ba(x.hi, y.hi), bits)
+    kx, px = linparts(x)
+    ky, py = linparts(y)
+    return mk_sum(kx + ky, px + py, x.s)
 
 
 def neg(x):
-    return mul(const(-1, x.s), x)
+    k, p = linparts(x)
+    return mk_sum(-k, tuple((-c, a) for c, a in p), x.s)
 
 
 def sub(x, y):
-    if y.op == 'const':
-        return add(x, const(-y.a[0], y.s))
-    if x is y:
-        return const(0, x.s)
-    lo = None if x.lo is None or y.hi is None else x.lo - y.hi
-    hi = None if x.hi is None or y.lo is None else x.hi - y.lo
-    return _mk('sub', (x, y), x.s, lo, hi)
+    kx, px = linparts(x)
+    ky, py = linparts(y)
+    return mk_sum(kx - ky, px + tuple((-c, a) for c, a in py), x.s)
+
+
+def scale(c, x):
+    k, p = linparts(x)
+    return mk_sum(c * k, tuple((c * cc, a) for cc, a in p), x.s)
 
 
 def mul(x, y):
     if y.op == 'const':
         x, y = y, x
     if x.op == 'const':
-        c = x.a[0]
-        if y.op == 'const':
-            return const(c * y.a[0], x.s)
-        if c == 0:
-            return const(0, x.s)
-        if c == 1:
-            return y
-        if y.op == 'mul' and y.a[0].op == 'const':
-            return mul(const(c * y.a[0].a[0], x.s), y.a[1])
-        if c > 0:
-            lo = None if y.lo is None else c * y.lo
-            hi = None if y.hi is None else c * y.hi
-        else:
-            lo = None if y.hi is None else c * y.hi
-            hi = None if y.lo is None else c * y.lo
-        bits = None
-        if x.s == INT and c > 0 and (c & (c - 1)) == 0:
-            b = pbits(y)
-            if b is not None:
-                bits = b * c
-        return _mk('mul', (x, y), x.s, lo, hi, bits)
+        return scale(x.a[0], y)
     lo = hi = None
     if None not in (x.lo, x.hi, y.lo, y.hi):
         ps = [x.lo * y.lo, x.lo * y.hi, x.hi * y.lo, x.hi * y.hi]
@@ -203,8 +243,16 @@ def idiv(x, c):
     hi = None if x.hi is None else x.hi // c
     if lo is not None and lo == hi:
         return const(lo, INT)
-    if x.op == 'mul' and x.a[0].op == 'const' and x.a[0].a[0] % c == 0:
-        return mul(const(x.a[0].a[0] // c, INT), x.a[1])
+    k, parts = linparts(x)
+    # (c*A + B) // c == A + B // c
+    div = tuple((cc // c, a) for cc, a in parts if cc % c == 0)
+    if div:
+        rest = mk_sum(k % c, tuple((cc, a) for cc, a in parts if cc % c != 0), INT)
+        return add(mk_sum(k // c, div, INT), idiv(rest, c))
+    if k >= c or k < 0:
+        return add(const(k // c, INT), idiv(mk_sum(k % c, parts, INT), c))
+    if x.op == 'idiv':
+        return idiv(x.a[0], x.a[1] * c)
     bits = None
     if (c & (c - 1)) == 0:
         b = pbits(x)
@@ -219,10 +267,15 @@ def imod(x, c):
         return const(0, INT)
     if x.op == 'const':
         return const(x.a[0] % c, INT)
+    k, parts = linparts(x)
+    if any(cc % c == 0 for cc, a in parts) or k >= c or k < 0:
+        x = mk_sum(k % c, tuple((cc, a) for cc, a in parts if cc % c != 0), INT)
+        if x.op == 'const':
+            return const(x.a[0] % c, INT)
     if x.lo is not None and x.hi is not None and x.lo // c == x.hi // c:
         return add(x, const(-c * (x.lo // c), INT))
-    if x.op == 'mul' and x.a[0].op == 'const' and x.a[0].a[0] % c == 0:
-        return const(0, INT)
+    if x.op == 'imod' and x.a[1] % c == 0:
+        return imod(x.a[0], c)
     bits = None
     if (c & (c - 1)) == 0:
         b = pbits(x)
@@ -236,6 +289,11 @@ def toreal(x):
         return x
     if x.op == 'const':
         return const(Fraction(x.a[0]), REAL)
+    if x.op == 'sum':
+        k, parts = x.a
+        return mk_sum(Fraction(k), tuple((Fraction(c), toreal(a)) for c, a in parts), REAL)
+    if x.op == 'toint' and False:
+        pass
     return _mk('toreal', (x,), REAL, x.lo, x.hi)
 
 
@@ -247,8 +305,16 @@ def toint(x):
         return const(math.floor(x.a[0]), INT)
     if x.op == 'toreal':
         return x.a[0]
+    k, parts = linparts(x)
+    # integer-valued summands leave the floor
+    ip = tuple((int(c), a.a[0]) for c, a in parts if a.op == 'toreal' and c.denominator == 1)
+    if ip or math.floor(k) != 0:
+        rest = mk_sum(k - math.floor(k), tuple((c, a) for c, a in parts if not (a.op == 'toreal' and c.denominator == 1)), REAL)
+        return add(mk_sum(math.floor(k), ip, INT), toint(rest))
     lo = None if x.lo is None else math.floor(x.lo)
     hi = None if x.hi is None else math.floor(x.hi)
+    if lo is not None and lo == hi:
+        return const(lo, INT)
     return _mk('toint', (x,), INT, lo, hi)
 
 
@@ -256,7 +322,7 @@ def rdiv(x, y):
     if y.op == 'const':
         if y.a[0] == 0:
             raise ZeroDivisionError('division by zero')
-        return mul(const(1 / Fraction(y.a[0]), REAL), x)
+        return scale(1 / Fraction(y.a[0]), x)
     lo = hi = None
     if y.lo is not None and y.lo > 0 and x.lo is not None and x.lo >= 0:
         lo = 0
@@ -353,6 +419,85 @@ def bxor(x, y):
 
 # ------------------------------------------------------------------ predicates
 
+def _gcd_norm(k, parts):
+    """divide an integer relation  sum(parts) ? k  by the gcd of its coefficients (when it divides k)"""
+    g = 0
+    for c, a in parts:
+        g = math.gcd(g, abs(c))
+    return g
+
+
+def _rel(op, x, y):
+    """canonical  S op K  /  K op S  for op in lt, le(REAL only), eq;  S constant-free"""
+    s = x.s
+    k, parts = linparts(sub(x, y))      # x - y = k + P   ;   x op y  <=>  P op -k
+    if not parts:
+        if op == 'lt':
+            return TRUE if k < 0 else FALSE
+        if op == 'le':
+            return TRUE if k <= 0 else FALSE
+        return TRUE if k == 0 else FALSE
+    k = -k
+    flip = parts[0][0] < 0
+    if flip:
+        parts = tuple((-c, a) for c, a in parts)
+        k = -k
+    if s == INT:
+        g = _gcd_norm(k, parts)
+        if g > 1:
+            if op == 'eq':
+                if k % g != 0:
+                    return FALSE
+                parts = tuple((c // g, a) for c, a in parts)
+                k //= g
+            elif not flip:      # P < k  <=>  P/g < ceil(k/g)
+                parts = tuple((c // g, a) for c, a in parts)
+                k = -((-k) // g)
+            else:               # P > k  <=>  P/g > floor(k/g)
+                parts = tuple((c // g, a) for c, a in parts)
+                k = k // g
+    S = mk_sum(0, parts, s)
+    K = const(k, s)
+    lo, hi = S.lo, S.hi
+    if op == 'eq':
+        if (lo is not None and k < lo) or (hi is not None and k > hi):
+            return FALSE
+        if lo is not None and lo == hi and lo == k:
+            return TRUE
+        if S.op == 'ite' and S.a[1].op == 'const' and S.a[2].op == 'const':
+            p, q = S.a[1].a[0] == k, S.a[2].a[0] == k
+            if p and not q:
+                return S.a[0]
+            if q and not p:
+                return not_(S.a[0])
+            return TRUE if p else FALSE
+        return _mk('eq', (S, K), BOOL)
+    if op == 'lt':
+        if not flip:        # S < k
+            if hi is not None and hi < k:
+                return TRUE
+            if lo is not None and lo >= k:
+                return FALSE
+            return _mk('lt', (S, K), BOOL)
+        if lo is not None and lo > k:   # k < S
+            return TRUE
+        if hi is not None and hi <= k:
+            return FALSE
+        return _mk('lt', (K, S), BOOL)
+    # le (REAL)
+    if not flip:
+        if hi is not None and hi <= k:
+            return TRUE
+        if lo is not None and lo > k:
+            return FALSE
+        return _mk('le', (S, K), BOOL)
+    if lo is not None and lo >= k:
+        return TRUE
+    if hi is not None and hi < k:
+        return FALSE
+    return _mk('le', (K, S), BOOL)
+
+
 def eq(x, y):
     if x is y:
         return TRUE
@@ -364,58 +509,21 @@ def eq(x, y):
         if x.id > y.id:
             x, y = y, x
         return _mk('iff', (x, y), BOOL)
-    if x.op == 'const' and y.op == 'const':
-        return TRUE if x.a[0] == y.a[0] else FALSE
-    if x.hi is not None and y.lo is not None and x.hi < y.lo:
-        return FALSE
-    if y.hi is not None and x.lo is not None and y.hi < x.lo:
-        return FALSE
-    if x.op == 'const':
-        x, y = y, x
-    if y.op == 'const':
-        if x.op == 'add' and x.a[1].op == 'const':
-            return eq(x.a[0], const(y.a[0] - x.a[1].a[0], x.s))
-        if x.op == 'ite' and x.a[1].op == 'const' and x.a[2].op == 'const':
-            a, b = x.a[1].a[0] == y.a[0], x.a[2].a[0] == y.a[0]
-            if a and not b:
-                return x.a[0]
-            if b and not a:
-                return not_(x.a[0])
-            return TRUE if a else FALSE
-    elif x.id > y.id:
-        x, y = y, x
-    return _mk('eq', (x, y), BOOL)
+    return _rel('eq', x, y)
 
 
 def lt(x, y):
     if x is y:
         return FALSE
-    if x.op == 'const' and y.op == 'const':
-        return TRUE if x.a[0] < y.a[0] else FALSE
-    if x.hi is not None and y.lo is not None and x.hi < y.lo:
-        return TRUE
-    if x.lo is not None and y.hi is not None and x.lo >= y.hi:
-        return FALSE
-    if y.op == 'const' and x.op == 'add' and x.a[1].op == 'const':
-        return lt(x.a[0], const(y.a[0] - x.a[1].a[0], x.s))
-    if x.op == 'const' and y.op == 'add' and y.a[1].op == 'const':
-        return lt(const(x.a[0] - y.a[1].a[0], x.s), y.a[0])
-    return _mk('lt', (x, y), BOOL)
+    return _rel('lt', x, y)
 
 
 def le(x, y):
     if x is y:
         return TRUE
-    if x.op == 'const' and y.op == 'const':
-        return TRUE if x.a[0] <= y.a[0] else FALSE
-    if x.hi is not None and y.lo is not None and x.hi <= y.lo:
-        return TRUE
-    if x.lo is not None and y.hi is not None and x.lo > y.hi:
-        return FALSE
     if x.s == INT:
-        # canonical form over integers: a <= b  <=>  a < b+1
-        return lt(x, add(y, const(1, INT)))
-    return _mk('le', (x, y), BOOL)
+        return _rel('lt', x, add(y, const(1, INT)))
+    return _rel('le', x, y)
 
 
 def not_(x):
@@ -494,11 +602,20 @@ def evaluate(t, model, memo):
             memo[u.id] = v
             stack.pop()
             continue
-        pend = [x for x in u.a if isinstance(x, T) and x.id not in memo]
+        if op == 'sum':
+            pend = [x for c, x in u.a[1] if x.id not in memo]
+        else:
+            pend = [x for x in u.a if isinstance(x, T) and x.id not in memo]
         if pend:
             stack.extend(pend)
             continue
         stack.pop()
+        if op == 'sum':
+            v = u.a[0]
+            for c, x in u.a[1]:
+                v = v + c * memo[x.id]
+            memo[u.id] = v
+            continue
         a = [memo[x.id] if isinstance(x, T) else x for x in u.a]
         if op == 'add':
             v = a[0] + a[1]
@@ -550,7 +667,7 @@ def has_rdiv_var(t, seen=None):
         seen.add(u.id)
         if u.op == 'rdiv':
             return True
-        stack.extend(x for x in u.a if isinstance(x, T))
+        stack.extend(children(u))
     return False
 
 
@@ -582,11 +699,21 @@ def to_z3(t):
             u.z = z3.Int(n) if u.s == INT else z3.Real(n) if u.s == REAL else z3.Bool(n)
             stack.pop()
             continue
-        pend = [x for x in u.a if isinstance(x, T) and x.z is None]
+        if op == 'sum':
+            pend = [x for c, x in u.a[1] if x.z is None]
+        else:
+            pend = [x for x in u.a if isinstance(x, T) and x.z is None]
         if pend:
             stack.extend(pend)
             continue
         stack.pop()
+        if op == 'sum':
+            mkc = (lambda c: z3.IntVal(c)) if u.s == INT else (lambda c: z3.RealVal(str(c)))
+            zs = [x.z if c == 1 else mkc(c) * x.z for c, x in u.a[1]]
+            if u.a[0] != 0:
+                zs.append(mkc(u.a[0]))
+            u.z = zs[0] if len(zs) == 1 else z3.Sum(zs)
+            continue
         a = [x.z if isinstance(x, T) else x for x in u.a]
         if op == 'add':
             z = a[0] + a[1]
@@ -601,7 +728,8 @@ def to_z3(t):
         elif op == 'toreal':
             z = z3.ToReal(a[0])
         elif op == 'toint':
-            z = z3.ToInt(a[0])
+            # Skolemised floor: a fresh integer constant; its defining axiom is added by assertion_of()
+            z = z3.Int('floor!%d' % u.id)
         elif op == 'rdiv':
             z = a[0] / a[1]
         elif op == 'ite':
@@ -638,6 +766,9 @@ def to_smt2(t, memo=None):
         return s if n >= 0 else '(- %s)' % s
     if op == 'var':
         return '|%s|' % t.a[0]
+    if op == 'sum':
+        ps = ['(* %s %s)' % (to_smt2(const(c, t.s)), to_smt2(x)) for c, x in t.a[1]] + [to_smt2(const(t.a[0], t.s))]
+        return '(+ %s)' % ' '.join(ps)
     a = [to_smt2(x) if isinstance(x, T) else str(x) for x in t.a]
     m = {'add': '+', 'sub': '-', 'mul': '*', 'idiv': 'div', 'imod': 'mod', 'toreal': 'to_real',
          'toint': 'to_int', 'rdiv': '/', 'ite': 'ite', 'eq': '=', 'iff': '=', 'lt': '<', 'le': '<=',
@@ -659,5 +790,52 @@ def variables(t, acc=None, seen=None):
         if u.op == 'var':
             acc[u.a[0]] = u
         else:
-            stack.extend(x for x in u.a if isinstance(x, T))
+            stack.extend(children(u))
     return acc
+
+
+_floor_memo = {}
+
+
+def floor_atoms(t):
+    """toint atoms occurring in t (memoised)"""
+    r = _floor_memo.get(t.id)
+    if r is not None:
+        return r
+    acc = []
+    seen = set()
+    stack = [t]
+    while stack:
+        u = stack.pop()
+        if u.id in seen:
+            continue
+        seen.add(u.id)
+        sub_ = _floor_memo.get(u.id)
+        if sub_ is not None and u is not t:
+            for a in sub_:
+                if a.id not in seen:
+                    seen.add(a.id)
+                    acc.append(a)
+            continue
+        if u.op == 'toint':
+            acc.append(u)
+        stack.extend(children(u))
+    r = tuple(acc)
+    _floor_memo[t.id] = r
+    return r
+
+
+def assertion_of(t):
+    """z3 formula for asserting boolean term t, including the axioms n <= x < n+1 of its floor atoms"""
+    import z3
+    z = to_z3(t)
+    fl = floor_atoms(t)
+    if not fl:
+        return z
+    ax = [z]
+    for a in fl:
+        n = to_z3(a)
+        x = to_z3(a.a[0])
+        ax.append(z3.ToReal(n) <= x)
+        ax.append(x < z3.ToReal(n) + 1)
+    return z3.And(ax)
